@@ -169,10 +169,18 @@ func (c *EvalCtx) eval(e *Expr) Value {
 		} else {
 			delete(c.bound, e.BVar)
 		}
-		if e.Op == "forall" {
-			return VBool{Forall([]*Term{bv}, body)}
+		// a hint(q) on the bound variable is the clause's trigger
+		var pats [][]*Term
+		if w := bvWidth(sort); w > 0 {
+			tr := App(fmt.Sprintf("trig%d", w), SBool, bv)
+			if occursTerm(tr, body) {
+				pats = append(pats, []*Term{tr})
+			}
 		}
-		return VBool{Exists([]*Term{bv}, body)}
+		if e.Op == "forall" {
+			return VBool{Forall([]*Term{bv}, body, pats...)}
+		}
+		return VBool{Exists([]*Term{bv}, body, pats...)}
 	}
 	fail("cannot evaluate %s", e.Op)
 	return nil
@@ -784,7 +792,97 @@ func beRead(b *Term, off *Term, n int) *Term {
 
 func zerosBytes(n int) *Term { return MkBytes(ZeroArr, BV(64, int64(n))) }
 
+var specFuns = map[string]*SpecFun{}
+
+// fixedLenApps: result length of opaque spec functions declared as bytes[N]
+var fixedLenApps = map[string]int{}
+
+func retSort(rt string) (string, int) {
+	if strings.HasPrefix(rt, "bytes[") {
+		var n int
+		fmt.Sscanf(rt, "bytes[%d]", &n)
+		return SBytes, n
+	}
+	switch rt {
+	case "bytes", "string":
+		return SBytes, 0
+	case "bool":
+		return SBool, 0
+	case "uint32":
+		return SBV(32), 0
+	case "uint64", "int":
+		return SBV(64), 0
+	case "amount":
+		return SBV(bigW), 0
+	}
+	fail("unknown spec type %s", rt)
+	return "", 0
+}
+
+func (c *EvalCtx) specArgs(sf *SpecFun, args []*Expr) ([]*Term, []Value) {
+	if len(args) != len(sf.Params) {
+		fail("%s takes %d arguments", sf.Name, len(sf.Params))
+	}
+	var ts []*Term
+	var vs []Value
+	for i, a := range args {
+		sort, _ := retSort(sf.Params[i][1])
+		var t *Term
+		if sort == SBytes {
+			t = c.bytesArg(a)
+			vs = append(vs, VStr{t})
+		} else if sort == SBool {
+			t = c.asBool(c.eval(a))
+			vs = append(vs, VBool{t})
+		} else {
+			t = c.asBV(c.eval(a), bvWidth(sort))
+			vs = append(vs, VBV{t, sf.Params[i][1] == "int" || sf.Params[i][1] == "amount"})
+		}
+		ts = append(ts, t)
+	}
+	return ts, vs
+}
+
+func (c *EvalCtx) specApp(sf *SpecFun, ts []*Term) Value {
+	sort, n := retSort(sf.Ret)
+	if n > 0 {
+		fixedLenApps[sf.Name] = n
+	}
+	t := App(sf.Name, sort, ts...)
+	return wrapSort(t)
+}
+
 func (c *EvalCtx) call(e *Expr) Value {
+	if sf, ok := specFuns[e.Name]; ok {
+		ts, _ := c.specArgs(sf, e.Args)
+		return c.specApp(sf, ts)
+	}
+	if e.Name == "reveal" {
+		// reveal(f(args)): the defining equation of the opaque spec function f for these arguments
+		if len(e.Args) != 1 || e.Args[0].Op != "call" || specFuns[e.Args[0].Name] == nil {
+			fail("reveal needs an application of a specfun")
+		}
+		sf := specFuns[e.Args[0].Name]
+		ts, vs := c.specArgs(sf, e.Args[0].Args)
+		app := c.specApp(sf, ts)
+		saved := map[string]Value{}
+		for i, p := range sf.Params {
+			if old, ok := c.bound[p[0]]; ok {
+				saved[p[0]] = old
+			}
+			c.bound[p[0]] = vs[i]
+		}
+		body := c.norm(c.eval(sf.Body))
+		for _, p := range sf.Params {
+			if old, ok := saved[p[0]]; ok {
+				c.bound[p[0]] = old
+			} else {
+				delete(c.bound, p[0])
+			}
+		}
+		c.side = append(c.side, c.eq(app, body))
+		return VBool{TTrue}
+	}
 	argn := func(n int) {
 		if len(e.Args) != n {
 			fail("%s takes %d arguments", e.Name, n)
@@ -933,6 +1031,72 @@ func (c *EvalCtx) call(e *Expr) Value {
 			return VList{ElemT: c.ex.attesterType(), Len: coupling(st, "nAtt", nil), Cols: map[string]*Term{"Attester": arr}}
 		}
 		return VList{ElemT: c.ex.attesterType(), Len: st.abs["nAtt"], Cols: map[string]*Term{"Attester": st.abs["attList"]}}
+	case "normV":
+		// a 65-byte signature with the recovery byte normalised: 27/28 become 0/1
+		argn(1)
+		sg := fixN(c.bytesArg(e.Args[0]), 65)
+		v := Select(Barr(sg), BV(64, 64))
+		nv := Ite(Or(Eq(v, BV(8, 27)), Eq(v, BV(8, 28))), BVSub(v, BV(8, 27)), v)
+		arr := ZeroArr
+		for i := 0; i < 64; i++ {
+			arr = storeNZ(arr, uint64(i), Select(Barr(sg), BV(64, int64(i))))
+		}
+		arr = storeNZ(arr, 64, nv)
+		return VStr{MkBytes(arr, BV(64, 65))}
+	case "ecrecOK":
+		argn(2)
+		return VBool{App("ecrecOK", SBool, c.bytesArg(e.Args[0]), c.bytesArg(e.Args[1]))}
+	case "ecrecKey":
+		argn(2)
+		return VStr{App("ecrecKey", SBytes, c.bytesArg(e.Args[0]), c.bytesArg(e.Args[1]))}
+	case "keyX":
+		argn(1)
+		return VBV{ZeroExt(bigW, beRead(c.bytesArg(e.Args[0]), BV(64, 1), 32)), true}
+	case "keyY":
+		argn(1)
+		return VBV{ZeroExt(bigW, beRead(c.bytesArg(e.Args[0]), BV(64, 33), 32)), true}
+	case "addrOfKey":
+		// Ethereum-style address of an uncompressed public key (0x04 || X || Y)
+		argn(1)
+		k := c.bytesArg(e.Args[0])
+		return VStr{App("addrOf", SBytes, ZeroExt(bigW, beRead(k, BV(64, 1), 32)), ZeroExt(bigW, beRead(k, BV(64, 33), 32)))}
+	case "addrLess":
+		// lexicographic order on 20-byte addresses
+		argn(2)
+		return VBool{BVUlt(beRead(c.bytesArg(e.Args[0]), BV(64, 0), 20), beRead(c.bytesArg(e.Args[1]), BV(64, 0), 20))}
+	case "hint":
+		// hint(e): always true; introduces the term trig(e) that quantified clauses list as their trigger
+		argn(1)
+		t := c.asBVAny(c.eval(e.Args[0]))
+		return VBool{App("trig"+fmt.Sprint(t.Width()), SBool, t)}
+	case "mem":
+		// mem(s, p): byte p of the memory behind slice parameter s (no bounds interpretation)
+		argn(2)
+		if e.Args[0].Op != "ident" {
+			fail("mem needs a parameter name")
+		}
+		sl, ok := c.vars[e.Args[0].Name].(VSlice)
+		if !ok || sl.Obj < 0 {
+			fail("mem: %s is not a byte slice parameter", e.Args[0].Name)
+		}
+		st := c.state()
+		if _, ok := st.heap[sl.Obj]; !ok {
+			st = c.post
+		}
+		return VBV{Select(st.heap[sl.Obj], BVAdd(sl.Off, c.asBV(c.eval(e.Args[1]), 64))), false}
+	case "hintRange":
+		// hintRange(base, n): hint(base), hint(base+1), ... hint(base+n-1)  (always true)
+		argn(2)
+		base := c.asBV(c.eval(e.Args[0]), 64)
+		n, ok := c.eval(e.Args[1]).(CNum)
+		if !ok {
+			fail("hintRange needs a literal count")
+		}
+		var conj []*Term
+		for k := int64(0); k < n.N.Int64(); k++ {
+			conj = append(conj, App("trig64", SBool, BVAdd(base, BV(64, k))))
+		}
+		return VBool{And(conj...)}
 	case "iterPos":
 		// position of the function's store iterator (number of entries already passed)
 		argn(0)
@@ -1068,3 +1232,5 @@ func fixN(b *Term, n int) *Term {
 	}
 	return snapArr(Barr(b), BV(64, 0), BV(64, int64(n)))
 }
+
+func occursTerm(v, t *Term) bool { return occurs(v, t) }
